@@ -18,23 +18,23 @@ SPEC = {
         Job("lottery", "core/ceremony", "^TestVerifC16Lottery$", shards=(8, 16), timeout=(600, 3000)),
     ],
     "parallel": 16,
+    # all floors are functions of the generated inputs (seed, tier), not of the lottery's behaviour
     "floors": {
-        "path_few_authors": (300, 3000),
-        "path_single_flip": (30, 300),
-        "path_topup_over7_authors": (300, 3000),
-        "path_zero_flips": (100, 1000),
-        "path_zero_candidates": (30, 300),
-        "path_multi_shard": (300, 3000),
-        "path_placeholder_layouts": (5, 50),
-        "cov_rotation_branch": 1000,
-        "cov_full_branch": 1000,
-        "cov_topup_links": 1000,
-        "exhaustive_cases": (1000, 5000),
-        "keys_decrypted_ok": (1000, 10000),
-        "keys_outsider_refused": (500, 5000),
-        "second_eval_restore": 100,
-        "second_eval_rebuilt_state": 100,
-        "cross_process_comparisons": 1,
+        "path_few_authors": (3000, 30000),
+        "path_single_flip": (200, 1000),
+        "path_topup_over7_authors": (1500, 30000),
+        "path_zero_flips": (400, 5000),
+        "path_zero_candidates": (200, 4000),
+        "path_multi_shard": (1000, 25000),
+        "path_one_flip_each_quota_or_more_authors": (100, 2000),
+        "path_cross_shard_same_cid": (10, 300),
+        "exhaustive_cases": 5992,
+        "realkey_layouts": (300, 2000),
+        "keys_packages_published": (800, 6000),
+        "second_eval_fresh": (1000, 10000),
+        "second_eval_restore": (1000, 10000),
+        "second_eval_rebuilt_state": (1000, 10000),
+        "cross_process_comparisons": 7,
     },
     "assumptions": [
         "the identity table handed to the lottery is what the chain can produce: cids unique per identity, "
